@@ -486,6 +486,18 @@ impl<B: Bound> Intervals<B> {
     }
 }
 
+/// Verification hook (only with `--cfg qrlew_verif`): an empty set with a small capacity, so that the
+/// capacity-crossing path of `to_simple_superset` can be explored by bounded tools.
+#[cfg(qrlew_verif)]
+impl<B: Bound> Intervals<B> {
+    pub fn verif_with_capacity(capacity: usize) -> Intervals<B> {
+        Intervals {
+            capacity,
+            intervals: vec![],
+        }
+    }
+}
+
 impl<B: Bound> Default for Intervals<B> {
     fn default() -> Self {
         Intervals::full()
